@@ -19,9 +19,11 @@ def main():
     for c in range(7):
         jobs.append(Job(P + 'VerifC07Args', (c,), cfg=cfg))
     for first in range(7):
-        jobs.append(Job(P + 'VerifC07Sequence', (2, first), cfg=cfg, max_paths=200000))
+        jobs.append(Job(P + 'VerifC07Sequence', (2, first, 0), cfg=cfg, max_paths=200000))
+        jobs.append(Job(P + 'VerifC07Sequence', (3, first, 1), cfg=cfg, max_paths=400000))
         if t == 'thorough':
-            jobs.append(Job(P + 'VerifC07Sequence', (3, first), cfg=cfg, max_paths=400000))
+            jobs.append(Job(P + 'VerifC07Sequence', (3, first, 0), cfg=cfg, max_paths=2000000))
+            jobs.append(Job(P + 'VerifC07Sequence', (4, first, 1), cfg=cfg, max_paths=2000000))
     jobs.append(Job(P + 'VerifC07Witness', (), witness=True, cfg=cfg))
     res = chk.run_jobs(jobs)
     finish(chk, res, t,
@@ -32,7 +34,7 @@ def main():
                        'DESIGN appendix A, incl. the appended event as any replica reads it; (b) argument rules with FREE seed/key bytes; '
                        '(c) sequences where each step is a free choice among the seven operations on two contacts, compared step by step with '
                        'the reference lifecycle (state, seed, metadata), then a fresh index replaying the same log.',
-           bounds={'state_x_operation': '7 x 7 (any history: the record is injected)', 'sequence_length': 2 if t == 'quick' else 3, 'contacts': 2,
+           bounds={'state_x_operation': '7 x 7 (any history: the record is injected)', 'sequence_length': '2 (two contacts, free metadata) and 3 (one contact, metadata absent/present)' if t == 'quick' else 'up to 3 with two contacts, up to 4 with one', 'contacts': 2,
                    'outside': 'longer sequences; replication of the log itself (the replica is given the same log object)'},
            assumptions=['contact keys are arbitrary distinct honest keys (atoms)', 'BaseStore.AddOperation appends and re-indexes (contract)',
                         'the log presents locally written entries in append order'],
